@@ -23,7 +23,7 @@ pub struct Cfg {
     pub memory_limit: String,
 }
 
-pub const RULE: &str = "configuration product --runtime-type {current-thread, multi-thread} x --threads {1,2,8} x --eviction-policy {none, random with a --memory-limit that is never reached, spelled 1GiB / 16Mb / 4GiB / 6GiB / 512mib / 2000MB} (x --max-item-size {1 KiB.., default} x --connection-limit {1,3} in the thorough tier), each a real memcrsd child process on its own loopback port. Every configuration is driven with the same single-connection programs (5 scripted ones aimed at the eviction-policy layer, delayed flush, counters and CAS, then proptest-generated ones) (all implemented opcodes loud/quiet, unimplemented opcodes, TTL 0 only) in the same order; oracle: the response byte stream of every program is identical to that of the first configuration (CAS included). Per configuration: a set whose body equals the item limit is accepted and limit+1 is answered 0x03; of 12 simultaneous connections exactly `connection-limit` answer a noop (the others stay unanswered over a 300 ms grace); 8 connections x 400 pipelined increments of one counter return 3200 distinct values and leave the exact total; real-time probe: set ttl 2 hits immediately and misses after 3.5 s while a ttl-0 item and a ttl-7 item are still there; nine further ttl-1 items are touched for the first time after those 3.5 s by delete, deleteq, add, replace, incr, append, getq, getkq and a CAS set, and the answers (and the gets that follow) must be the same in every configuration. evaluations = configurations x programs. non-trivial = a program with at least 10 requests covering at least 6 opcodes";
+pub const RULE: &str = "configuration product --runtime-type {current-thread, multi-thread} x --threads {1,2,8} x --eviction-policy {none, random with a --memory-limit that is never reached, spelled 1GiB / 16Mb / 4GiB / 6GiB / 512mib / 2000MB} (--item-size-limit 1 MiB + 333 B, not a whole KiB; x {1500 B, 4 KiB, 1 MiB, 1 000 000 B} x --connection-limit {1,3} in the thorough tier), each a real memcrsd child process on its own loopback port. Every configuration is driven with the same single-connection programs (5 scripted ones aimed at the eviction-policy layer, delayed flush, counters and CAS, then proptest-generated ones) (all implemented opcodes loud/quiet, unimplemented opcodes, TTL 0 only) in the same order; oracle: the response byte stream of every program is identical to that of the first configuration (CAS included). Per configuration: a set whose body equals the item limit is accepted and limit+1 is answered 0x03; of 12 simultaneous connections exactly `connection-limit` answer a noop (the others stay unanswered over a 300 ms grace); 8 connections x 400 pipelined increments of one counter return 3200 distinct values and leave the exact total; real-time probe: set ttl 2 hits immediately and misses after 3.5 s while a ttl-0 item and a ttl-7 item are still there; nine further ttl-1 items are touched for the first time after those 3.5 s by delete, deleteq, add, replace, incr, append, getq, getkq and a CAS set, and the answers (and the gets that follow) must be the same in every configuration. evaluations = configurations x programs. non-trivial = a program with at least 10 requests covering at least 6 opcodes";
 pub const ASSUME: &[&str] = &[
     "memcrsd is built from /repo's working tree with cargo's dev profile (overflow checks on) into /verif/harness/target/memcrsd-build",
     "the configuration product is enumerated completely for the listed values only; --port varies per configuration by construction",
@@ -233,7 +233,8 @@ fn scripted_programs() -> Vec<PipeCase> {
 
 fn configs(ctx: &Ctx) -> Vec<Cfg> {
     let mut v = vec![];
-    let variants: Vec<(u32, u32)> = if ctx.quick() { vec![(1 << 20, 2)] } else { vec![(1 << 20, 2), (1024, 1), (4096, 3), (1 << 20, 1)] };
+    // limits that are not whole KiB: the configured byte count itself must be what is enforced (seeded change C20-J rounds it down)
+    let variants: Vec<(u32, u32)> = if ctx.quick() { vec![((1 << 20) + 333, 2)] } else { vec![((1 << 20) + 333, 2), (1500, 1), (4096, 3), (1 << 20, 1), (1_000_000, 2)] };
     for (item_limit, conn_limit) in variants {
         for runtime in ["current-thread", "multi-thread"] {
             for threads in [1u32, 2, 8] {
